@@ -43,16 +43,16 @@ func executeIntegerMath(lhs, rhs int64, op ast.BinaryOperator) (int64, error) {
 func executeFloatMath(lhs, rhs float64, op ast.BinaryOperator) (float64, error) {
 	switch op {
 	case ast.BinaryAdd:
-		return lhs + rhs, nil
+		return finiteFloat(lhs + rhs)
 	case ast.BinarySub:
-		return lhs - rhs, nil
+		return finiteFloat(lhs - rhs)
 	case ast.BinaryMul:
-		return lhs * rhs, nil
+		return finiteFloat(lhs * rhs)
 	case ast.BinaryDiv:
 		if rhs == 0 {
 			return 0, fmt.Errorf("%w: division by zero", ErrVerbose)
 		}
-		return lhs / rhs, nil
+		return finiteFloat(lhs / rhs)
 	case ast.BinaryMod:
 		if rhs == 0 {
 			return 0, fmt.Errorf("%w: division by zero", ErrVerbose)
@@ -66,6 +66,14 @@ func executeFloatMath(lhs, rhs float64, op ast.BinaryOperator) (float64, error) 
 
 // mathOperandErr creates an error for an invalid operand to op. pos is the
 // position of the operand, either "left" or "right".
+// finiteFloat returns an error instead of an infinite or NaN result.
+func finiteFloat(res float64) (float64, error) {
+	if math.IsInf(res, 0) || math.IsNaN(res) {
+		return 0, fmt.Errorf("%w: numeric value out of range", ErrVerbose)
+	}
+	return res, nil
+}
+
 func mathOperandErr(op ast.BinaryOperator, pos string) error {
 	return fmt.Errorf(
 		"%w: %v operand of jsonpath operator %v is not a single numeric value",
